@@ -483,8 +483,9 @@ class MLIRLexer(Lexer[MLIRTokenKind]):
         return self._form_token(kind, start_pos)
 
     # Match a double-quoted string literal, allowing valid escape sequences (\n, \t, \\, \", and two hex digits).
+    # No `+` inside the repeated group: nested quantifiers backtrack exponentially on an unterminated literal.
     _unescaped_characters_regex = re.compile(
-        r'"(?:[^"\\\n\v\f]+|\\(?:["nt\\]|[0-9A-Fa-f]{2}))*"'
+        r'"(?:[^"\\\n\v\f]|\\(?:["nt\\]|[0-9A-Fa-f]{2}))*"'
     )
 
     def _lex_string_literal(self, start_pos: Position) -> MLIRToken:
